@@ -720,3 +720,27 @@ def scheck(pid: str, tier: str, extra_assumptions=None, known=None) -> int:
         if not flags.get(need):
             rep.notes.append(f"generator self-check: predicate {need} never reached")
     return rep.finish()
+
+
+def sreplay(pid: str, path: str) -> int:
+    """Re-executes a stored case: implementation trace, monitors, and comparison with the model."""
+    data = json.loads(open(path).read())
+    ops = data.get("ops") or (data.get("case") or {}).get("ops")
+    if not ops:
+        print("no op list in", path)
+        return 2
+    w = sgen.replay(ops, tolerant=True)
+    for i, ((op, res, snap)) in enumerate(decode_run(w.ops, w.outs)):
+        print(i, sgen.readable(list(op))[0], res)
+    if w.incomplete:
+        print("replay stopped at step", w.incomplete)
+    h = analyse(w.ops, w.outs)
+    for p, ms in h.viol.items():
+        for m in ms[:3]:
+            print(f"MONITOR {p}: {m}")
+    exe = core.build_driver(*DRIVER)
+    m = core.run_driver(exe, [w.ops])[0]
+    if m != w.outs:
+        si, a, b = sgen.first_diff_step(w, m)
+        print(f"MODEL/IMPLEMENTATION DISAGREE at step {si}:\n impl  {a[:60]}\n model {b[:60]}")
+    return 1 if (h.viol.get(pid) or m != w.outs) else 0
